@@ -487,7 +487,7 @@ pub fn run(tier: Tier, seed: u64, replay: Option<&std::path::Path>) -> i32 {
         tier,
         seed,
         replay,
-        (2400, 20000),
+        (2400, 30000),
         60,
         strategy,
         run_case,
